@@ -206,6 +206,10 @@ def run(ctx: vlib.Ctx):
     from harness.props import c01 as _c01
     _c01.tv_part(ctx, "c02_tv", "enc", ctx.budget(40, 300))
     toml_merge_part(ctx)
+    # round-7 parts (own random streams): converting-before-pass-through unions, same-named classes of different modules in one
+    # codec shape, sequences of entry points under a call-time dialect
+    from harness.props import c02_r7
+    c02_r7.run_all(ctx)
 
 
 FORMAT_MIXINS = {"orjson": ("DataClassORJSONMixin", "to_jsonb"), "msgpack": ("DataClassMessagePackMixin", "to_msgpack"),
@@ -294,6 +298,10 @@ def toml_merge_part(ctx):
 
 
 def replay(rep: dict) -> int:
+    from harness.props import c02_r7
+    r7 = c02_r7.replay(rep)
+    if r7 is not None:
+        return r7
     if rep.get("entry") == "toml_codec_merge":
         ns = gen.build_module(rep["source"])
         obs = _toml_merge_obs(ns, rep["dialect"], rep["input_src"])
